@@ -39,7 +39,7 @@ Definition no_leading_zero (s : bytes) : bool :=
 (* [is_dec n s]: s is the canonical decimal numeral of n *)
 Definition is_dec (n : N) (s : bytes) : Prop := dec_value s = Some n /\ no_leading_zero s = true.
 
-(* the canonical decimal numeral as a function (validated against [is_dec] in Proofs.v:
+(* the canonical decimal numeral as a function (validated against [is_dec] in ProofsDec.v:
    [is_dec n s <-> s = dec n]) *)
 Fixpoint dec_fuel (fuel : nat) (n : N) : bytes :=
   match fuel with
